@@ -16,6 +16,13 @@ Lemma gen_cmd_tar_close : cmd_write_deferred_tar_close = true. Proof. reflexivit
    directory output halts the walk, whatever the error is *)
 Lemma gen_walk_halts : walk_callback_error_action = WHalt. Proof. reflexivity. Qed.
 Lemma gen_walk_root : walk_root_lstat_error_returned = true. Proof. reflexivity. Qed.
+(* readTar's tar.TypeSymlink case returns the error of os.Symlink whatever it is: a path that is
+   already occupied (EEXIST) ends the retrieve *)
+Lemma gen_symlink_exists : readtar_symlink_exists_is_error = true. Proof. reflexivity. Qed.
+
+Lemma sym_if {A} (m p : bool) (E X Y : A) :
+  (if (readtar_symlink_exists_is_error && m) || p then E else if m then X else Y) = (if m || p then E else Y).
+Proof. rewrite gen_symlink_exists. destruct m, p; reflexivity. Qed.
 
 (* ------------------------------------------------------------------------------------------
    Specification vocabulary *)
@@ -210,7 +217,7 @@ Proof.
   - destruct c as [n sz c0|n|n t| |]; try discriminate; cbn [app read_tar run].
     + destruct (len c0 =? sz); [apply IH|reflexivity].
     + apply IH.
-    + destruct (mem n disk || negb (parent_exists root n disk)); [reflexivity|apply IH].
+    + rewrite sym_if. destruct (mem n disk || negb (parent_exists root n disk)); [reflexivity|apply IH].
 Qed.
 
 (* a hit on a truncated archive: the truncation kept everything, and everything was unpacked *)
@@ -238,7 +245,7 @@ Proof.
       cbn [read_tar] in H. destruct (IH _ _ _ H) as [B R]. split; [lia|exact R].
     + destruct (N.eqb_spec k 0) as [->|K0]; [cbn in H; discriminate|].
       destruct (N.ltb_spec k 512) as [K1|K1]; [cbn in H; discriminate|].
-      cbn [read_tar] in H. destruct (mem n disk || negb (parent_exists root n disk)); [cbn in H; discriminate|].
+      cbn [read_tar] in H. rewrite sym_if in H. destruct (mem n disk || negb (parent_exists root n disk)); [cbn in H; discriminate|].
       destruct (IH _ _ _ H) as [B R]. split; [lia|exact R].
 Qed.
 
@@ -254,7 +261,7 @@ Proof.
       * destruct (len c0 =? sz); [apply IH|reflexivity].
       * destruct (len (take (k - 512) c0) =? sz); reflexivity.
     + destruct (k =? 0); [reflexivity|]. destruct (k <? 512); [reflexivity|]. cbn [read_tar]. apply IH.
-    + destruct (k =? 0); [reflexivity|]. destruct (k <? 512); [reflexivity|]. cbn [read_tar].
+    + destruct (k =? 0); [reflexivity|]. destruct (k <? 512); [reflexivity|]. cbn [read_tar]. rewrite sym_if.
       destruct (mem n disk || negb (parent_exists root n disk)); [reflexivity|apply IH].
 Qed.
 
@@ -544,7 +551,7 @@ Proof.
     + cbn [read_tar]. destruct (IH clean ((n, NDir) :: disk)) as (pre & rest & -> & H).
       exists (CDir n :: pre), rest. split; [reflexivity|]. cbn [nodes node_of rev].
       rewrite <- app_assoc. exact H.
-    + cbn [read_tar]. destruct (mem n disk || negb (parent_exists root n disk)).
+    + cbn [read_tar]. rewrite sym_if. destruct (mem n disk || negb (parent_exists root n disk)).
       * exists [], (CSym n t :: r). split; [reflexivity|left; reflexivity].
       * destruct (IH clean ((n, NLink t) :: disk)) as (pre & rest & -> & H).
         exists (CSym n t :: pre), rest. split; [reflexivity|]. cbn [nodes node_of rev].
